@@ -204,7 +204,7 @@ def run(ctx):
     # --- reader -------------------------------------------------------------------------------
     idx_load = None
     rf = F.adts.get("reader::ShapeReader")
-    idx_field = [x["name"] for x in rf["variants"][0]["fields"] if "Vec<reader::ShapeIndex>" in x["ty"]] if rf else []
+    idx_field = [x["name"] for x in rf["variants"][0]["fields"] if x["ty"].startswith("std::option::Option<std::vec::Vec<")] if rf else []
     if len(idx_field) != 1:
         ctx.missing("C04.reader", "index field of ShapeReader")
         return
